@@ -73,6 +73,22 @@ pub fn run(s: &dyn Subject, ctx: &Ctx) -> Option<DeclReport> {
                 }
                 _ => {}
             }
+            // RON written with struct names must read back (the name handed to the serializer and the one expected by the deserializer agree)
+            if let Some((a, b, back)) = &o.ron_named {
+                rep.executions += 1;
+                if a != b {
+                    rep.violate("Ron(struct_names):text-differs-from-serde-derived-newtype", raw.show(), format!("{:?}", a), format!("{:?}", b), String::new());
+                }
+                if let (Some(Ok(inner_back)), Some(r)) = (&o.inner_roundtrip, back) {
+                    if *inner_back == v {
+                        rep.class("Ron(struct_names):roundtrip");
+                        match r {
+                            Ok(w) if *w == v => {}
+                            other => rep.violate("Ron(struct_names):roundtrip-fails", raw.show(), format!("{:?}", other), v.show(), format!("{:?}", a)),
+                        }
+                    }
+                }
+            }
             // the same in container positions
             for (p, nbt, nbi, nbr, back) in &o.nested {
                 rep.executions += 1;
